@@ -203,9 +203,7 @@ func (c *Cmd) Wait() error {
 	}
 	simlog.Add(simlog.Event{Kind: "os.reap", Subj: p.Token, Pid: p.Pid, N: p.ExitCode})
 	W.leave()
-	if ctxErr != nil {
-		return ctxErr
-	}
+	_ = ctxErr // like os/exec: a command killed because its context ended reports the kill, not the context error
 	if p.Signalled {
 		return &ExitError{c.ProcessState, fmt.Sprintf("signal: %d", p.KilledBy)}
 	}
